@@ -131,6 +131,7 @@ DirCombos == { sk \o inc : sk \in DirStates("skip", "s"), inc \in DirStates("inc
 DirVarDefs == << VarDef("sT", NonNull(B)), VarDef("sF", NonNull(B)), VarDefD("sDT", B, BoolV(TRUE)), VarDefD("sDF", B, BoolV(FALSE)),
                  VarDef("iT", NonNull(B)), VarDef("iF", NonNull(B)), VarDefD("iDT", B, BoolV(TRUE)), VarDefD("iDF", B, BoolV(FALSE)) >>
 DirGiven == [sT |-> BoolV(TRUE), sF |-> BoolV(FALSE), iT |-> BoolV(TRUE), iF |-> BoolV(FALSE)]
+IntroType(sels) == [FS("", "__type", sels) EXCEPT !.args = <<Arg("name", StrV("A"))>>]
 DirTargets(ds) ==
   { <<WithDirs(F("", "title"), ds), F("x", "title")>>,
     <<F("x", "title"), WithDirs(FS("", "a", <<F("", "name")>>), ds)>>,
@@ -143,7 +144,11 @@ DirTargets(ds) ==
     <<FS("", "a", <<WithDirs(Spr("G"), ds), F("", "name")>>)>>,
     \* the meta field takes directives like any other selection
     <<WithDirs(F("", "__typename"), ds), F("x", "title")>>,
-    <<FS("", "a", <<WithDirs(F("t", "__typename"), ds), F("", "name")>>)>> }
+    <<FS("", "a", <<WithDirs(F("t", "__typename"), ds), F("", "name")>>)>>,
+    \* and so do the selections below the introspection fields
+    <<FS("", "__schema", <<FS("", "queryType", <<WithDirs(F("", "name"), ds), F("", "kind")>>), WithDirs(FS("", "types", <<F("", "name")>>), ds)>>), F("", "title")>>,
+    <<IntroType(<<F("", "name"), WithDirs(FS("", "fields", <<F("", "name"), WithDirs(FS("", "type", <<F("", "name")>>), ds)>>), ds)>>)>>,
+    <<FS("", "__schema", <<WithDirs(Inl("", <<FS("", "mutationType", <<F("", "name")>>)>>), ds), FS("", "directives", <<F("", "name"), WithDirs(F("", "locations"), ds)>>)>>)>> }
 DirFrags == <<Frg("Q", "Query", <<F("", "title"), FS("", "a", <<F("", "name")>>)>>), Frg("G", "A", <<F("", "n"), FS("", "self", <<F("x", "name")>>)>>)>>
 \* the same named fragment spread twice with independent directives (a decision must not be shared)
 DirSmall == { <<>>, <<Dir("skip", BoolV(TRUE))>>, <<Dir("skip", BoolV(FALSE))>>, <<Dir("include", BoolV(TRUE))>>,
